@@ -412,7 +412,16 @@ var requests = []string{"/top", "/top?f=g", "/top?i=h", "/peek?f=g", "/flamegrap
 	"/flamegraph?si=s1", "/flamegraph?g=lines", "/flamegraph?noinlines=t", "/flamegraph?g=files", "/top?g=files&s=cum",
 	// C09: query strings that must be answered with an error page, not a crash
 	"/top?n=zz", "/top?f=(", "/peek?f=(", "/top?si=nosuch", "/top?g=bogus", "/top?nf=1e999", "/flamegraph?i=(", "/top?tf=99999999999999999999:", "/source?f=", "/disasm?f=f",
-	"/top?%zz", "/top?n=-5", "/top?unit=parsecs", "/nosuchpage"}
+	"/top?%zz", "/top?n=-5", "/top?unit=parsecs", "/nosuchpage",
+	// the same uncompilable expression under different options (the diagnostic names the option of THIS request), and
+	// requests whose page carries a message of their own ("... expression matched no samples")
+	"/top?i=(", "/top?h=(", "/top?s=(", "/top?i=zznomatch", "/top?f=zznomatchb", "/top?h=zznomatchc", "/flamegraph?i=zznomatchd"}
+
+// directed histories next to the random ones: each runs sequentially and (several times) concurrently
+var directedWeb = [][]string{
+	{"/top?f=(", "/top?i=(", "/top?h=(", "/top?s=(", "/top?f=("},
+	{"/top?i=zznomatch", "/top?f=zznomatchb", "/top?h=zznomatchc", "/top", "/flamegraph?i=zznomatchd", "/top?f=g"},
+}
 
 type webServer struct {
 	handlers map[string]http.Handler
@@ -531,13 +540,19 @@ func webPart(n int) {
 			run.Violate("web", "web-leak:"+mode+":"+rq, fmt.Sprintf("%s after/with %v: status %d vs fresh %d; bodies differ=%v\n%s", rq, hist, got.code, want.code, !bytes.Equal(got.body, want.body), firstDiff(got.body, want.body)), hist, nil)
 		}
 	}
-	for it := 0; it < n; it++ {
+	nd := len(directedWeb) * 8
+	for it := -nd; it < n; it++ {
 		k := 2 + r.Intn(3)
 		var hist []string
 		for i := 0; i < k; i++ {
 			hist = append(hist, requests[r.Intn(len(requests))])
 		}
 		concurrent := it%2 == 1
+		if it < 0 {
+			// directed: once sequentially, seven times concurrently
+			hist = directedWeb[(it+nd)/8]
+			concurrent = (it+nd)%8 != 0
+		}
 		withServer(func(w *webServer) {
 			if !concurrent {
 				for i, rq := range hist {
